@@ -12,6 +12,7 @@ from ..evidence import Acc
 from ..explorer import HarnessError
 
 PID = "C19"
+BOTH_CONSTRUCTION_PATHS = True  # flaw injection and strict-mode graphs once with constructor-built and once with decorator-built nodes
 LEVEL = "exploration"
 TECHNIQUE = "exhaustive single-flaw injection: every valid base program x every flaw class x every position (also inside a nested graph), expecting GraphConfigError from the constructor and acceptance of the repaired graph; plus the closed universe of type expressions x ALL ordered pairs against a reference compatibility relation, directly and through strict-mode graph construction at every edge position"
 LEVEL_TEXT = (
@@ -62,6 +63,19 @@ def bases():
     )
     inner = T.prog([T.fn("ib", ["a0"], ["b0"]), T.route("ig", ["b0"], ["it", "iu", "END"]), T.fn("it", ["b0"], ["t0"]), T.fn("iu", ["b0"], ["u0"])], name="inr")
     yield "nested", T.prog([T.fn("na", [e], ["a0"]), T.gnode("inr", inner), T.fn("oc", ["t0"], ["c0"])], name="base")
+    # the same inner graph two levels down (a flaw inside it sits at depth 2)
+    mid = T.prog([T.gnode("inr", copy.deepcopy(inner)), T.fn("mc", ["u0"], ["m0"])], name="mid")
+    yield "nested2", T.prog([T.fn("na", [e], ["a0"]), T.gnode("mid", mid), T.fn("oc", ["t0", "m0"], ["c0"])], name="base")
+    # every gate-free DAG shape with <= 2 nodes (<= 2 parameters / outputs per node, <= 2 external inputs), one external defaulted
+    from ..progen import dag_program, dag_shapes, shape_names
+
+    for N in (1, 2):
+        for si, shape in enumerate(dag_shapes(N, 2, 2, 2)):
+            exts, consumed, outs = shape_names(shape)
+            src = {x: frozenset("D") if i == 1 else frozenset("P") for i, x in enumerate(exts)}
+            prog, _ = dag_program(shape, src, set())
+            prog["name"] = "base"
+            yield f"dag{N}-{si}", prog
 
 
 def flaws(name, prog):
@@ -100,6 +114,9 @@ def flaws(name, prog):
                     p = clone()
                     at(p, path)["nodes"].append(T.fn("dupprod", ["zz"], [o]))
                     yield "second-producer", f"{where}:{o}", p
+                    p = clone()
+                    at(p, path)["nodes"].insert(0, T.fn("dupprod", ["zz"], [o, "zz_extra"]))
+                    yield "second-producer", f"{where}:{o}@first", p
             # 3. duplicate node name
             if s["kind"] in ("fn", "route", "ifelse"):
                 p = clone()
@@ -250,17 +267,35 @@ def flaw_part(acc, which, total):
         if st != "accepted":
             acc.violation({"symptom": "valid-graph-rejected", "base": name}, {"kind": "base", "base": name, "program": jsonable(_safe(prog))}, f"valid base program {name} rejected: {msg}")
             continue
+        if try_build(_reversed(prog))[0] != "accepted":
+            acc.violation({"symptom": "valid-graph-rejected", "base": name, "reversed": True}, {"kind": "base", "base": name, "reversed": True, "program": jsonable(_safe(prog))}, f"valid base program {name} rejected when its node lists are reversed")
         for cls, pos, fp in flaws(name, prog):
-            acc.evaluations += 1
-            acc.key((name, cls, pos))
-            st, msg = try_build(fp)
-            acc.outcomes[(cls, st)] += 1
-            nested = not pos.startswith("top")
-            if st == "accepted":
-                acc.violation({"symptom": "flaw-accepted", "flaw": cls, "nested": nested}, {"kind": "flaw", "base": name, "flaw": cls, "position": pos, "program": jsonable(_safe(fp))}, f"{name}: {cls} at {pos} was accepted by the constructor")
-            elif st == "other-exception":
-                acc.violation({"symptom": "flaw-raises-wrong-exception", "flaw": cls, "exception": msg.split(":")[0]}, {"kind": "flaw", "base": name, "flaw": cls, "position": pos, "program": jsonable(_safe(fp))}, f"{name}: {cls} at {pos} raised {msg} instead of the configuration error")
+            for rev in (False, True):
+                # the same flawed graph with every node list (all nesting levels) in reverse order: a mistake is a mistake wherever it sits
+                fpx = _reversed(fp) if rev else fp
+                acc.evaluations += 1
+                acc.key((name, cls, pos, rev))
+                st, msg = try_build(fpx)
+                acc.outcomes[(cls, st)] += 1
+                nested = not pos.startswith("top")
+                if st == "accepted":
+                    acc.violation({"symptom": "flaw-accepted", "flaw": cls, "nested": nested}, {"kind": "flaw", "base": name, "flaw": cls, "position": pos, "reversed": rev, "program": jsonable(_safe(fpx))}, f"{name}: {cls} at {pos} was accepted by the constructor" + (" (node lists reversed)" if rev else ""))
+                elif st == "other-exception":
+                    acc.violation({"symptom": "flaw-raises-wrong-exception", "flaw": cls, "exception": msg.split(":")[0]}, {"kind": "flaw", "base": name, "flaw": cls, "position": pos, "reversed": rev, "program": jsonable(_safe(fpx))}, f"{name}: {cls} at {pos} raised {msg} instead of the configuration error" + (" (node lists reversed)" if rev else ""))
         acc.sample({"base": name, "flaws": sorted({c for c, _, _ in flaws(name, prog)})}, 2)
+
+
+def _reversed(prog):
+    p = copy.deepcopy(prog)
+
+    def rec(level):
+        level["nodes"] = list(reversed(level["nodes"]))
+        for sp in level["nodes"]:
+            if sp["kind"] == "graph":
+                rec(sp["inner"])
+
+    rec(p)
+    return p
 
 
 def _safe(prog):
@@ -695,9 +730,9 @@ def replay(rep):
     name = rep["base"]
     prog = next(p for n, p in bases() if n == name)
     if rep["kind"] == "base":
-        return [] if try_build(prog)[0] == "accepted" else ["valid base rejected"]
+        return [] if try_build(_reversed(prog) if rep.get("reversed") else prog)[0] == "accepted" else ["valid base rejected"]
     for cls, pos, fp in flaws(name, prog):
         if cls == rep["flaw"] and pos == rep["position"]:
-            st, msg = try_build(fp)
+            st, msg = try_build(_reversed(fp) if rep.get("reversed") else fp)
             return [] if st == "config-error" else [f"{cls} at {pos}: {st} {msg}"]
     return ["flaw position not found"]
